@@ -174,6 +174,7 @@ type reuseScenario struct {
 	Engines []int         `json:"engines"`
 	Clients [3]int        `json:"client_key"`
 	Actions []reuseAction `json:"actions"`
+	Phase   int           `json:"start_phase_ns"` // the clock is moved off the whole second before anything is minted (instants_test.go)
 }
 
 func drawReuseScenario(rt *rapid.T) reuseScenario {
@@ -188,6 +189,7 @@ func drawReuseScenario(rt *rapid.T) reuseScenario {
 	for i := range sc.Clients {
 		sc.Clients[i] = rapid.SampledFrom([]int{0, 0, 0, 1, 2, 3}).Draw(rt, "clientkey") // mostly Ed25519: cheap
 	}
+	sc.Phase = rapid.SampledFrom([]int{0, 1, 1, 1}).Draw(rt, "phase") * drawSubSecond(rt, "phase")
 	na := rapid.IntRange(4, 12).Draw(rt, "actions")
 	sel := rapid.IntRange(0, 1<<16-1)
 	for i := 0; i < na; i++ {
@@ -217,6 +219,10 @@ func TestServerReuse(t *testing.T) {
 		var labels, fp []string
 		nontrivial := false
 		hx.Bubble(t, rt, func() {
+			if sc.Phase > 0 {
+				time.Sleep(time.Duration(sc.Phase))
+			}
+			labels = append(labels, "start-frac:"+fracClass(time.Now()))
 			w := newWorld(rt, conf, idents)
 			type tok struct {
 				v    string
@@ -330,7 +336,13 @@ func TestServerReuse(t *testing.T) {
 					res = w.send(s, host, host, &hdr, -1)
 					nontrivial = true
 				case raSleep:
-					d := []time.Duration{time.Second, time.Second, challengeTTL + time.Second, s.ttl + time.Second, s.ttl - time.Second}[a.Sel%5]
+					// whole lifetimes plus 1 ns / 0.4 ms: right after a value was handed out this is the first
+					// instant / a sub-millisecond instant after its end
+					d := []time.Duration{time.Second, time.Second, challengeTTL + time.Second, s.ttl + time.Second, s.ttl - time.Second,
+						challengeTTL + 1, s.ttl + 1, s.ttl + 400*time.Microsecond, challengeTTL + 400*time.Microsecond}[a.Sel%9]
+					if d%time.Second != 0 {
+						labels = append(labels, "act:sleep:sub-ms-past-a-lifetime")
+					}
 					time.Sleep(d)
 					fp = append(fp, fmt.Sprintf("sleep:%s", d))
 					labels = append(labels, "act:sleep")
